@@ -73,7 +73,12 @@ func gen(t *rapid.T) Case {
 		}
 		p := objPaths[rapid.IntRange(0, len(objPaths)-1).Draw(t, "obj")]
 		var h hist.Op
-		switch rapid.SampledFrom([]string{"attr", "attr", "attr", "write", "delattr", "resize", "new", "hard"}).Draw(t, "k") {
+		switch rapid.SampledFrom([]string{"attr", "attr", "attr", "write", "delattr", "resize", "new", "hard", "fit", "fit", "reopen"}).Draw(t, "k") {
+		case "fit":
+			h = hist.Op{K: "attrfit", Path: []string{"/c", "/r", "/k", "/g/in"}[rapid.IntRange(0, 3).Draw(t, "fitobj")], Name: rapid.SampledFrom([]string{"a", "b", "c", "d", "e"}).Draw(t, "aname"),
+				Delta: rapid.IntRange(-4, 8).Draw(t, "delta"), Seed: rapid.IntRange(0, 999).Draw(t, "fseed")}
+		case "reopen":
+			h = hist.Op{K: "reopen"}
 		case "attr":
 			a := &hist.AttrVal{Kind: rapid.SampledFrom([]string{"i32", "f64", "str", "[]f64", "u16", "str"}).Draw(t, "akind"), Seed: rapid.IntRange(0, 999).Draw(t, "aseed")}
 			if a.Kind == "str" {
